@@ -601,6 +601,8 @@ package main
 //@ ghost var ghostSyncTx *sql.Tx
 //@ ghost var ghostSyncClearedProfiles bool
 //@ ghost var ghostSyncClearedSigned bool
+//@ ghost var ghostSyncStepFailed bool
+//@ ghost var ghostSyncUncheckedRows *sql.Rows
 //@ func copyDBIntoSQLite
 //@   handler copyDBIntoSQLite
 //@   atcall (*database/sql.DB).Begin sets ghostSyncTx *sql.Tx (db *sql.DB, tx2 *sql.Tx, err2 error) :: tx2 if db == destination && err2 == nil
@@ -610,5 +612,18 @@ package main
 //@   atcall (*database/sql.Tx).Prepare requires (tx2 *sql.Tx, query string) :: tx2 == ghostSyncTx && ghostSyncClearedProfiles && ghostSyncClearedSigned   #C15.inserts-in-the-transaction-after-clearing @C15
 //@   atcall (*database/sql.DB).Prepare requires (db *sql.DB, query string) :: false   #C15.no-statement-prepared-outside-the-transaction @C15
 //@   atcall (*database/sql.DB).Exec requires (db *sql.DB, query string, args []any) :: false   #C15.no-statement-executed-outside-the-transaction @C15
+// a step that failed (a row that could not be read or written) never leads to a commit: the cache keeps its previous content
+//@   atcall (*database/sql.Stmt).Exec sets ghostSyncStepFailed bool (st *sql.Stmt, args []any, res sql.Result, err2 error) :: true if err2 != nil
+//@   atcall (*database/sql.Rows).Scan sets ghostSyncStepFailed bool (rows2 *sql.Rows, dest []any, err2 error) :: true if err2 != nil
+//@   atcall (*database/sql.Rows).Err sets ghostSyncStepFailed bool (rows2 *sql.Rows, err2 error) :: true if err2 != nil
+// an iteration that stopped (Next returned false) may have stopped on an error: it counts as failed until Err() of
+// the same rows said otherwise
+//@   atcall (*database/sql.Rows).Next sets ghostSyncUncheckedRows *sql.Rows (rows2 *sql.Rows, more bool) :: rows2 if !more
+//@   atcall (*database/sql.Rows).Err sets ghostSyncUncheckedRows *sql.Rows (rows2 *sql.Rows, err2 error) :: nil if err2 == nil && rows2 == ghostSyncUncheckedRows
+//@   atcall (*database/sql.Tx).Prepare requires (tx2 *sql.Tx, query string) :: ghostSyncUncheckedRows == nil   #C15.iteration-errors-checked-before-next-table @C15
+//@   atcall (*database/sql.Tx).Commit requires (tx2 *sql.Tx) :: ghostSyncUncheckedRows == nil   #C15.iteration-errors-checked-before-commit @C15
+//@   loop 1 () invariant !ghostSyncStepFailed && ghostSyncUncheckedRows == nil && ghostSyncClearedProfiles && ghostSyncClearedSigned  #C15.copy-profiles-loop @C15
+//@   loop 2 () invariant !ghostSyncStepFailed && ghostSyncUncheckedRows == nil && ghostSyncClearedProfiles && ghostSyncClearedSigned  #C15.copy-signed-loop @C15
+//@   atcall (*database/sql.Tx).Commit requires (tx2 *sql.Tx) :: !ghostSyncStepFailed   #C15.no-commit-after-a-failed-step @C15
 //@   atcall (*database/sql.Tx).Commit requires (tx2 *sql.Tx) :: tx2 == ghostSyncTx && ghostSyncClearedProfiles && ghostSyncClearedSigned   #C15.commit-replaces-both-tables @C15
 //@ callers database/sql.DB).Exec only initializeSQLitetables, initDBPostgres  #C15.no-direct-exec-outside-schema-setup @C15
